@@ -139,6 +139,7 @@ def check(ctx, rep):
     rep.rule("R-CAPTURE", "a closure created inside the worker and run later (as a map function) does not refer to a local variable of its defining function that is assigned again after the closure was created (Python closures bind late)")
     fa = prog.fn("apply:f_apply")
     rep.require(fa.vararg is not None and fa.kwarg is not None, "f_apply must take *future_args, **future_kwargs")
+    capture_rule(ctx, rep, fa.module)
 
     # ---- the recursive worker
     cands = []
@@ -466,25 +467,31 @@ def check(ctx, rep):
     rep.rule("R-PROBE", "library code that handles a future it was given never uses hasattr/getattr on it with a name outside the Future API (a proxy argument would forward the lookup to the awaited result and the failure would never be copied to the output)")
     probe_rule(ctx, rep, "R-PROBE")
 
-    # ---- closures that run later must not see a variable that is re-bound after they were created
-    for owner in [R] + [f for f in prog.functions.values() if f.parent is not None and _top(f) is R]:
+
+
+def capture_rule(ctx, rep, module):
+    """closures that run later must not see a variable that is re-bound after they were created (python closures bind
+    late): a name assigned again further down, or bound anew by every iteration of a loop the closure is created in.
+    Values handed over as parameter defaults are read at creation time and are fine."""
+    prog = ctx.prog
+    for owner in sorted([f for f in prog.functions.values() if f.module is module], key=lambda f: f.key):
         assigned = {}
         for node in _own_nodes(owner.node):
             if isinstance(node, ast.Name) and isinstance(node.ctx, ast.Store):
                 assigned.setdefault(node.id, []).append(_stmt_end(owner.node, node))
         for sub in owner.nested.values():
-            free = _free_names(sub.node)
+            free = _free_names(sub.node, defaults=False)
             created = (sub.node.lineno, sub.node.col_offset)
             for name in sorted(free):
                 later = [pos for pos in assigned.get(name, []) if pos >= created]
                 rep.ob("R-CAPTURE", "%s does not capture a variable re-bound later (%s)" % (sub.qualname, name), not later,
-                       "closure %s refers to `%s`, which %s assigns again after the closure is created: when the closure runs later it sees the new value" % (sub.qualname, name, owner.qualname), where_of(sub))
+                       "closure %s refers to `%s`, which %s assigns again after the closure is created (or on the next round of the loop it is created in): when the closure runs later it sees the new value" % (sub.qualname, name, owner.qualname), where_of(sub))
 
 
 _SCOPES = (ast.FunctionDef, ast.AsyncFunctionDef, ast.Lambda, ast.ListComp, ast.SetComp, ast.DictComp, ast.GeneratorExp)
 
 
-def _free_names(scope):
+def _free_names(scope, defaults=True):
     """names a function / lambda / comprehension reads from an enclosing scope (python's scoping: a name bound
     anywhere in a scope -- parameter, assignment, loop or comprehension target, import, def -- is local to it)"""
     bound, used, declared = set(), set(), set()
@@ -505,7 +512,7 @@ def _free_names(scope):
             if isinstance(n, (ast.FunctionDef, ast.AsyncFunctionDef, ast.ClassDef)):
                 bound.add(n.name)
             if not isinstance(n, ast.ClassDef):
-                used |= _free_names(n)
+                used |= _free_names(n, True)  # a nested scope's defaults are evaluated when *this* scope runs
             continue
         if isinstance(n, ast.Name):
             (bound if isinstance(n.ctx, (ast.Store, ast.Del)) else used).add(n.id)
@@ -518,8 +525,9 @@ def _free_names(scope):
                 bound.add((al.asname or al.name).split(".")[0])
         stack.extend(ast.iter_child_nodes(n))
     free = (used - bound) | (declared & used)
-    for e in outer_exprs:
-        free |= set(x.id for x in ast.walk(e) if isinstance(x, ast.Name))
+    if defaults:
+        for e in outer_exprs:
+            free |= set(x.id for x in ast.walk(e) if isinstance(x, ast.Name))
     return free
 
 
